@@ -5,13 +5,17 @@ import (
 	"encoding/base64"
 	"encoding/hex"
 	"fmt"
+	"net/http"
 	"strconv"
+	"strings"
 	"testing"
 
 	"pgregory.net/rapid"
 
+	"github.com/MichaelMure/git-bug/api/graphql"
 	"github.com/MichaelMure/git-bug/api/graphql/connections"
 	"github.com/MichaelMure/git-bug/api/graphql/models"
+	"github.com/MichaelMure/git-bug/cache"
 	"github.com/MichaelMure/git-bug/entities/bug"
 	"github.com/MichaelMure/git-bug/entities/identity"
 	"github.com/MichaelMure/git-bug/entity"
@@ -533,4 +537,271 @@ func cursorClass(c *string, n int) string {
 	default:
 		return fmt.Sprintf("inner%d", pos*4/n)
 	}
+}
+
+// ---------------------------------------------------------------- layer 2: page walks over the served GraphQL API
+
+type c20WalkCase struct {
+	Seed     uint64 `json:"seed"`
+	NIdent   int    `json:"n_ident"`
+	NBugs    int    `json:"n_bugs"`
+	Comments []int  `json:"comments"` // per bug: number of extra comments (authors rotate)
+	Labels   []int  `json:"labels"`   // per bug: number of labels
+}
+
+func genC20Walk(t *rapid.T) c20WalkCase {
+	c := c20WalkCase{Seed: rapid.Uint64().Draw(t, "seed"), NIdent: rapid.IntRange(1, 7).Draw(t, "nIdent"), NBugs: rapid.IntRange(1, 6).Draw(t, "nBugs")}
+	for i := 0; i < c.NBugs; i++ {
+		c.Comments = append(c.Comments, rapid.IntRange(0, 5).Draw(t, "comments"))
+		c.Labels = append(c.Labels, rapid.IntRange(0, 4).Draw(t, "labels"))
+	}
+	return c
+}
+
+type gqlPage struct {
+	keys    []string
+	cursors []string
+	hasNext bool
+	hasPrev bool
+	start   string
+	end     string
+	total   int
+}
+
+// connPage sends one request for a connection reachable at path and decodes the page.
+func connPage(h http.Handler, pathFmt string, args string, nodeKey string) (gqlPage, error) {
+	sel := fmt.Sprintf("totalCount pageInfo { hasNextPage hasPreviousPage startCursor endCursor } edges { cursor node { %s } } nodes { %s }", nodeKey, nodeKey)
+	argStr := ""
+	if args != "" {
+		argStr = "(" + args + ")"
+	}
+	q := fmt.Sprintf(pathFmt, argStr, sel)
+	_, body, raw := gqlDo(h, q, nil)
+	if errs, _ := body["errors"].([]any); len(errs) > 0 {
+		return gqlPage{}, fmt.Errorf("errors: %s", truncate(raw, 300))
+	}
+	// descend to the connection object: the only map-valued chain under data
+	var cur any = body["data"]
+	for {
+		m, ok := cur.(map[string]any)
+		if !ok {
+			return gqlPage{}, fmt.Errorf("unexpected response %s", truncate(raw, 300))
+		}
+		if _, isConn := m["pageInfo"]; isConn {
+			break
+		}
+		if len(m) != 1 {
+			return gqlPage{}, fmt.Errorf("unexpected response shape %s", truncate(raw, 300))
+		}
+		for _, v := range m {
+			cur = v
+		}
+	}
+	conn := cur.(map[string]any)
+	var p gqlPage
+	p.total = int(conn["totalCount"].(float64))
+	pi := conn["pageInfo"].(map[string]any)
+	p.hasNext, _ = pi["hasNextPage"].(bool)
+	p.hasPrev, _ = pi["hasPreviousPage"].(bool)
+	p.start, _ = pi["startCursor"].(string)
+	p.end, _ = pi["endCursor"].(string)
+	keyField := strings.Fields(nodeKey)[len(strings.Fields(nodeKey))-1]
+	keyField = strings.Trim(keyField, "{} ")
+	for _, e := range conn["edges"].([]any) {
+		em := e.(map[string]any)
+		p.cursors = append(p.cursors, em["cursor"].(string))
+		node, _ := em["node"].(map[string]any)
+		p.keys = append(p.keys, fmt.Sprint(node[keyField]))
+	}
+	var nodeKeys []string
+	for _, n := range conn["nodes"].([]any) {
+		nm, _ := n.(map[string]any)
+		nodeKeys = append(nodeKeys, fmt.Sprint(nm[keyField]))
+	}
+	if strings.Join(nodeKeys, ",") != strings.Join(p.keys, ",") {
+		return p, fmt.Errorf("nodes %v differ from edges %v", nodeKeys, p.keys)
+	}
+	return p, nil
+}
+
+func runC20Walk(tb report.TB, rep *report.Reporter, c c20WalkCase) {
+	w, err := NewCWorld(1, c.Seed)
+	if err != nil {
+		tb.Fatalf("harness: %v", err)
+	}
+	defer w.Close()
+	r := w.R[0]
+	var authors []*cache.IdentityCache
+	me, _ := r.Cache.GetUserIdentity()
+	authors = append(authors, me)
+	for i := 1; i < c.NIdent; i++ {
+		ic, err := r.Cache.Identities().NewRaw(fmt.Sprintf("walker %d", i), "w@example.org", "", "", nil, nil)
+		if err != nil {
+			tb.Fatalf("harness: %v", err)
+		}
+		authors = append(authors, ic)
+	}
+	labelPool := []string{"bug", "ui", "prod", "Good first issue", "wontfix", "docs"}
+	var bugIds []string
+	for i := 0; i < c.NBugs; i++ {
+		bc, _, err := r.Cache.Bugs().NewRaw(authors[i%len(authors)], int64(1000+i), fmt.Sprintf("walk bug %d", i), "m", nil, nil)
+		if err != nil {
+			tb.Fatalf("harness: %v", err)
+		}
+		for k := 0; k < c.Comments[i]; k++ {
+			_, _, _ = bc.AddCommentRaw(authors[(i+k+1)%len(authors)], int64(2000+k), fmt.Sprintf("comment %d", k), nil, nil)
+		}
+		if c.Labels[i] > 0 {
+			_, _, _ = bc.ChangeLabelsRaw(authors[(i+2)%len(authors)], 3000, labelPool[i%3 : i%3+c.Labels[i]-0][:min(c.Labels[i], 3)], nil, nil)
+		}
+		if i%2 == 1 {
+			_, _ = bc.CloseRaw(authors[i%len(authors)], 4000, nil)
+		}
+		if err := bc.CommitAsNeeded(); err != nil {
+			tb.Fatalf("harness: %v", err)
+		}
+		bugIds = append(bugIds, string(bc.Id()))
+	}
+	// hand the repository over to the API server
+	if err := r.Cache.Close(); err != nil {
+		tb.Fatalf("harness: %v", err)
+	}
+	r.Cache = nil
+	repo, err := repository.OpenGoGitRepo(r.Path, "git-bug", nil)
+	if err != nil {
+		tb.Fatalf("harness: %v", err)
+	}
+	mrc := cache.NewMultiRepoCache()
+	_, events := mrc.RegisterDefaultRepository(repo)
+	for ev := range events {
+		if ev.Err != nil {
+			tb.Fatalf("harness: %v", ev.Err)
+		}
+	}
+	defer mrc.Close()
+	h := graphql.NewHandler(mrc, nil)
+
+	type listSpec struct{ name, pathFmt, key string }
+	lists := []listSpec{
+		{"allBugs", "{ repository { allBugs%s { %s } } }", "id"},
+		{"allBugs(query)", "{ repository { allBugs%s { %s } } }", "id"},
+		{"allIdentities", "{ repository { allIdentities%s { %s } } }", "id"},
+		{"validLabels", "{ repository { validLabels%s { %s } } }", "name"},
+	}
+	bid := bugIds[int(c.Seed%uint64(len(bugIds)))]
+	for _, sub := range []struct{ f, key string }{{"comments", "id"}, {"timeline", "id"}, {"operations", "id"}, {"actors", "id"}, {"participants", "id"}} {
+		lists = append(lists, listSpec{"bug." + sub.f, `{ repository { bug(prefix: "` + bid + `") { ` + sub.f + `%s { %s } } } }`, sub.key})
+	}
+	pages := 0
+	multi := false
+	for _, l := range lists {
+		extra := ""
+		if l.name == "allBugs(query)" {
+			extra = `query: "status:open sort:id"`
+		}
+		join := func(a, b string) string {
+			if a == "" {
+				return b
+			}
+			if b == "" {
+				return a
+			}
+			return a + ", " + b
+		}
+		fail := func(sig, detail string) bool {
+			return rep.Fail(tb, "C20/graphql/"+l.name+"/"+sig, detail, c)
+		}
+		full, err := connPage(h, l.pathFmt, extra, l.key)
+		if err != nil {
+			if fail("request-fails", err.Error()) {
+				return
+			}
+			continue
+		}
+		// the unpaginated list itself is stable and duplicate free
+		again, _ := connPage(h, l.pathFmt, extra, l.key)
+		if strings.Join(full.keys, ",") != strings.Join(again.keys, ",") {
+			if fail("list-order-changes-between-requests", fmt.Sprintf("first  %v\nsecond %v", full.keys, again.keys)) {
+				return
+			}
+			continue
+		}
+		n := len(full.keys)
+		if full.total != n || len(setOf(full.keys)) != n {
+			if fail("unpaginated-list-inconsistent", fmt.Sprintf("totalCount %d, %d edges, %d distinct", full.total, n, len(setOf(full.keys)))) {
+				return
+			}
+		}
+		for size := 1; size <= n+1; size++ {
+			for _, dir := range []string{"forward", "backward"} {
+				var got []string
+				cursor := ""
+				for step := 0; step <= n+2; step++ {
+					args := ""
+					if dir == "forward" {
+						args = fmt.Sprintf("first: %d", size)
+						if cursor != "" {
+							args += fmt.Sprintf(`, after: %q`, cursor)
+						}
+					} else {
+						args = fmt.Sprintf("last: %d", size)
+						if cursor != "" {
+							args += fmt.Sprintf(`, before: %q`, cursor)
+						}
+					}
+					p, err := connPage(h, l.pathFmt, join(extra, args), l.key)
+					pages++
+					if err != nil {
+						if fail("page-request-fails", fmt.Sprintf("%s (%s): %v", args, dir, err)) {
+							return
+						}
+						break
+					}
+					where := fmt.Sprintf("%s walk with page size %d over %d elements, step %d (%s)", dir, size, n, step, args)
+					if p.total != n {
+						if fail("total-count", fmt.Sprintf("%s: totalCount %d", where, p.total)) {
+							return
+						}
+					}
+					if len(p.keys) > size {
+						if fail("page-larger-than-requested", where) {
+							return
+						}
+					}
+					if len(p.keys) > 0 && (p.start != p.cursors[0] || p.end != p.cursors[len(p.cursors)-1]) {
+						if fail("start-end-cursor", where) {
+							return
+						}
+					}
+					more := false
+					if dir == "forward" {
+						got = append(got, p.keys...)
+						more = p.hasNext
+						cursor = p.end
+					} else {
+						got = append(append([]string(nil), p.keys...), got...)
+						more = p.hasPrev
+						cursor = p.start
+					}
+					if step > 0 {
+						multi = true
+					}
+					if !more || len(p.keys) == 0 {
+						break
+					}
+				}
+				if strings.Join(got, ",") != strings.Join(full.keys, ",") {
+					if fail("walk-does-not-visit-every-element-once-in-order/"+dir, fmt.Sprintf("%s walk with page size %d\nlist %v\nwalk %v", dir, size, full.keys, got)) {
+						return
+					}
+				}
+			}
+		}
+	}
+	rep.Class("pages-requested", pages)
+	rep.Case(fmt.Sprintf("walk|i%d|b%d|c%v|l%v", c.NIdent, c.NBugs, c.Comments, c.Labels), multi, []string{fmt.Sprintf("identities:%d", c.NIdent), fmt.Sprintf("bugs:%d", c.NBugs)}, c)
+}
+
+func TestC20GraphQL(t *testing.T) {
+	Drive(t, "C20", genC20Walk, runC20Walk)
 }
